@@ -91,7 +91,11 @@ func (g *gen) event() hx.Sx {
 	if g.r.Chance(1, 40) && !g.ascii {
 		return g.value(2) // a root that is not an object
 	}
-	return g.object(g.r.Range(0, 6), 3)
+	ev := g.object(g.r.Range(0, 6), 3)
+	if _, has := jDig(ev, []string{"ts"}); !has && g.r.Chance(1, 3) {
+		ev = hx.L(append(append([]hx.Sx(nil), hx.Items(ev)...), jKV("ts", jStr(hx.Pick(g.r, stamps))))...)
+	}
+	return ev
 }
 
 // every path of the event (containers and scalars), as lists of keys / indices
@@ -192,10 +196,50 @@ func (g *gen) leaf(ev hx.Sx) *rnode {
 	}
 }
 
+// a path whose value satisfies want (a timestamp-like string, a number, an array), if the event has one
+func (g *gen) pathWhere(ev hx.Sx, want func(v hx.Sx) bool) ([]string, bool) {
+	var ps, hit [][]string
+	allPaths(ev, nil, &ps)
+	for _, p := range ps {
+		if v, ok := jDig(ev, p); ok && want(v) {
+			hit = append(hit, p)
+		}
+	}
+	if len(hit) == 0 {
+		return nil, false
+	}
+	return hx.Pick(g.r, hit), true
+}
+
+func isStamp(v hx.Sx) bool {
+	if jKind(v) != 3 {
+		return false
+	}
+	for _, s := range stamps {
+		if jText(v) == s {
+			return true
+		}
+	}
+	return false
+}
+
 func (g *gen) leaf1(ev hx.Sx) *rnode {
 	p := g.path(ev)
+	k := g.r.Intn(20)
+	if g.r.Chance(3, 4) { // aim the typed leaves at fields of their type
+		switch {
+		case k >= 15 && k < 17:
+			if q, ok := g.pathWhere(ev, isStamp); ok {
+				p = q
+			}
+		case k >= 12 && k < 15:
+			if q, ok := g.pathWhere(ev, func(v hx.Sx) bool { return jKind(v) == 2 || jKind(v) >= 4 }); ok && g.r.Bool() {
+				p = q
+			}
+		}
+	}
 	data, _, _ := jData(ev, p)
-	switch k := g.r.Intn(20); {
+	switch {
 	case k < 12:
 		n := &rnode{kind: kField, op: g.r.Intn(6), path: p, cs: !g.r.Chance(3, 10)}
 		nv := g.r.Range(1, 4)
